@@ -806,6 +806,21 @@ def gen_wild_single(rng):
     return c, ops
 
 
+# fixed merge cases with the sensor names of the stock MVFv4 property map (visdatav4.SENSOR_PROPS keys '*noise_diode',
+# '*activity', ...): the near misses are names that extend / end with / contain a match
+def scripted_props():
+    out = []
+    for name in ('asc_wind_speed', 'asc_wind_speed_rate', 'm000_dig_noise_diode', 'm000_dig_noise_diode_power',
+                 'sub_m000_dig_noise_diode', 'M000_DIG_NOISE_DIODE', 'm000_activity', 'm000_activity_x', 'obs_activity'):
+        for pm in ([('*wind_speed', {'off': 3})], [('*noise_diode', {'cat': True}), ('m000*', {'off': -2})],
+                   [('m000_*_noise_diode', {'off': 1}), ('*', {'init': ('float', 3)})],
+                   [('m???_activity*', {'off': 2}), ('m000.activity*', {'off': 4}), ('*activity', {'cat': True, 'off': -1})],
+                   [('m000_activity', {'off': 1}), ('*_activity', {'off': 2}), ('m*', {'cat': False}), ('*y', {'off': 3})]):
+            out.append(dict(name=name, pm=pm, kw={}))
+            out.append(dict(name=name, pm=pm, kw={'off': -3}))
+    return out
+
+
 # the seeded change C12-1 as a fixed history: '*wind_speed' belongs to 'asc_wind_speed', not to 'asc_wind_speed_rate'
 def scripted_wild():
     ga = dict(kind='simple', dtype='float', status=False, swidth=7, ustatus=False,
@@ -1101,7 +1116,7 @@ def run(ctx):
         ctx.note_case(('scripted_wild', json.dumps([c, ops], sort_keys=True, default=str)), nontrivial=nt,
                       sample=dict(kind='scripted_wild', props=[k for (k, _) in c['props']], ops=[o[:2] for o in ops]))
     run_primitive(ctx, [gen_primitive(rng) for _ in range(ctx.scale(1200, 24000))])
-    run_props(ctx, [gen_props_case(rng) for _ in range(ctx.scale(4000, 80000))])
+    run_props(ctx, scripted_props() + [gen_props_case(rng) for _ in range(ctx.scale(4000, 80000))])
     for _ in range(ctx.scale(700, 14000)):
         c, ops = gen_wild_single(rng)
         nt = run_single(ctx, c, ops, kind='wild')
